@@ -710,11 +710,12 @@ def correspondence(ctx, budget=None):
         "F1: parse_command on lines verb x separator x argument x ending (verbs: 6 PASS spellings, other verbs, non-ASCII "
         "look-alikes; arguments from a generator biased to blanks, '%'/'{}' directives, '*', non-ASCII, 1 char, up to 20000 chars), "
         "each with its marker twin; F2: client.command over commands x censor_after in {None,0,1,4,5,6,-1,-2,50}; "
-        "S1: real Client.login vs real Server on simnet for 6 login outcomes (incl. authenticate() raising) x passwords, each run twice (p and twin), a share "
-        "with asyncio debug mode; S2: raw scripts for 6 verb spellings x 5 login sequences (incl. authenticate() raising) x passwords, twice each; "
+        "S1: real Client.login vs real Server on simnet for 7 login kinds (incl. authenticate() raising, login() twice on one connection) x passwords, each run twice (p and twin), a share "
+        "with asyncio debug mode; S2: raw scripts for 6 verb spellings x 8 login sequences (incl. authenticate() raising, USER again after a login / towards another user / before PASS) x passwords, twice each; "
         "S3: real Client.connect+login against a scripted peer, bounded-exhaustive over every word of <= 3 (thorough 5) continuing "
         "replies {331, 332, two-line 331} followed by {230, four-line 230, 530, 421, 333, EOF}, plus malformed scripts (code change "
-        "inside a multi-line reply, non-numeric / short / empty lines, 120), thorough: + random words; users x accounts rotate, "
+        "inside a multi-line reply, non-numeric / short / empty lines, 120), plus a client with socket_timeout=3 against every script of "
+        "depth <= 2 with a 6 s silence at every position and 1.5 s silences before every reply; thorough: + random words; users x accounts rotate, "
         "each script run with a password and its marker twin. "
         "A case is non-trivial when its (stream, verb/outcome, password) key is new."
     )
